@@ -219,8 +219,102 @@ func TestIllFormedSpecs(t *testing.T) {
 			}
 		}
 	}
+	nPlaced := placedFaults(rep)
 	rep.sample("base#0+token-redefined")
-	rep.done(t, true, fmt.Sprintf("%d well-formed base specifications x %d single-fault mutations", len(baseSpecs), len(faults())))
+	rep.done(t, true, fmt.Sprintf("%d well-formed base specifications x %d single-fault mutations; %d placements of a faulty lexer term (3 faulty terms x expression contexts x token/fragment/macro x top level/inside a mode/second file)", len(baseSpecs), len(faults()), nPlaced))
+}
+
+// placedFaults: one faulty lexer term (reversed class range, empty literal, undefined
+// reference) in every expression context the grammar of lexer expressions offers, in a
+// token, a fragment and a macro, at top level, inside a mode and in a second file. Each
+// variant must be rejected with a diagnostic positioned in the right file on a line of
+// the faulty declaration; the same variant with a well-formed term must be accepted.
+func placedFaults(rep *report) int {
+	type term struct {
+		name, bad, good string
+		class           bool
+	}
+	terms := []term{
+		{"class-range-reversed", "[z-a]", "[a-z]", true},
+		{"empty-literal", "''", "'v'", false},
+		{"undefined-macro-or-token-ref", "NOSUCH", "'w'", false},
+	}
+	type ctx struct {
+		name, tmpl string
+		class      bool
+	}
+	ctxs := []ctx{
+		{"bare", "'k' %s", false}, {"group", "'k' (%s)", false}, {"alt", "'k' | 'j' %s", false}, {"star", "'k' %s*", false},
+		{"nongreedy", "'k' %s+? 'e'", false}, {"nested-group-alt", "'k' (('j' | %s) 'e')?", false},
+		{"diff-right", "'k' [b-y]-%s", true}, {"diff-left", "'k' %s-[b]", true}, {"negated", "'k' ~%s", true},
+		{"diff-right-negated", "'k' [b-y]-~%s", true}, {"diff-left-negated", "'k' ~%s-[b]", true},
+	}
+	kinds := []struct{ name, tmpl string }{
+		{"token", "FT = %s"},
+		{"frag", "@frag %s @discard"},
+		{"macro", "@macro FMAC = %s\nFT = FMAC 'z'"},
+	}
+	base := "@lexer\nPLUS = '+'\nNUM = [0-9]+\n"
+	tail := "@parser\n@start s = NUM\n"
+	n := 0
+	for _, tm := range terms {
+		for _, cx := range ctxs {
+			if cx.class && !tm.class {
+				continue
+			}
+			for _, kd := range kinds {
+				for pl := 0; pl < 3; pl++ {
+					build := func(t string) (files []string, file, lo, hi int) {
+						d := fmt.Sprintf(kd.tmpl, fmt.Sprintf(cx.tmpl, t))
+						nl := strings.Count(d, "\n") + 1
+						switch pl {
+						case 0: // top level
+							return []string{base + d + "\n" + tail}, 0, 4, 3 + nl
+						case 1: // inside a mode
+							ind := "  " + strings.ReplaceAll(d, "\n", "\n  ")
+							return []string{base + "PMF = 'pmf' @push_mode(FMode)\n@mode FMode {\n" + ind + "\n  ENDF = 'endf' @pop_mode\n}\n" + tail}, 0, 6, 5 + nl
+						default: // second file
+							return []string{base + tail, "@lexer\n" + d + "\n"}, 1, 2, 1 + nl
+						}
+					}
+					name := fmt.Sprintf("%s/%s in %s, placement %s", tm.name, cx.name, kd.name, []string{"top-level", "inside-mode", "second-file"}[pl])
+					n++
+					rep.count(true)
+					gf, _, _, _ := build(tm.good)
+					gb := buildSpec(gf, true)
+					if gb.panicked != "" {
+						rep.fail("C12/no-panic", name+" (well-formed variant)", gb.panicked)
+						continue
+					}
+					if !gb.ok {
+						rep.fail("C17/well-formed-spec-accepted", name+" (well-formed variant): "+strings.Join(gf, "\n--\n"), firstLine(gb.diag))
+						continue
+					}
+					bf, file, lo, hi := build(tm.bad)
+					bb := buildSpec(bf, true)
+					if bb.panicked != "" {
+						rep.fail("C12/no-panic", name, bb.panicked)
+						continue
+					}
+					if bb.ok {
+						rep.fail("C17/ill-formed-spec-rejected/"+tm.name, name+": "+strings.Join(bf, "\n--\n"), "accepted without a diagnostic")
+						continue
+					}
+					m := diagLine.FindStringSubmatch(bb.diag)
+					if m == nil {
+						rep.fail("C17/diagnostic-position-inside-declaration/"+tm.name, name, "first diagnostic carries no position: "+firstLine(bb.diag))
+						continue
+					}
+					fi, _ := strconv.Atoi(m[1])
+					ln, _ := strconv.Atoi(m[2])
+					if fi != file || ln < lo || ln > hi {
+						rep.fail("C17/diagnostic-position-inside-declaration/"+tm.name, name, fmt.Sprintf("first diagnostic is at f%d.lox:%d, the faulty declaration is in f%d.lox lines %d-%d: %s", fi, ln, file, lo, hi, firstLine(bb.diag)))
+					}
+				}
+			}
+		}
+	}
+	return n
 }
 
 func firstLine(s string) string {
